@@ -87,6 +87,7 @@ class ProcId:
         self.n_lock = 0
         self.n_write = 0
         self.inv = None  # ordinal among submitter-capable invocations (fault addressing)
+        self.evlog = ([], 0, True, False)  # this process's own state of the "_jade_event" logger (handlers, level, propagate, disabled)
         self.exit = None
         self.exc = None
 
@@ -168,6 +169,26 @@ class VThread:
             raise Killed()
         self.state = "running"
         self.wait = None
+
+
+_EVENT_LOGGER = "_jade_event"
+
+
+def _evlog_get():
+    import logging
+
+    lg = logging.getLogger(_EVENT_LOGGER)
+    return (list(lg.handlers), lg.level, lg.propagate, lg.disabled)
+
+
+def _evlog_set(state):
+    import logging
+
+    lg = logging.getLogger(_EVENT_LOGGER)
+    lg.handlers[:] = state[0]
+    lg.level, lg.propagate, lg.disabled = state[1], state[2], state[3]
+    if hasattr(lg, "_cache"):
+        lg._cache.clear()
 
 
 def _exit_code(e):
@@ -581,6 +602,8 @@ class World:
         self.killed = []
         self.hung = []
         self._ignore_pauses = False
+        self.event_logging = False  # virtualise the "_jade_event" logger per process and record what reaches *events.log files
+        self.events_written = []  # (file, text) of every record a FileHandler wrote to an *events.log file
         self.shared_node_hosts = 0  # 0: every batch on its own host; k: batches share k host names
         self.exotic_plan = []  # [{"at": step, "steps": duration, "which": n}] unusual scheduler states (see _exotic_tick)
         self.fs_watch = set()  # basenames whose mutations are recorded as "fs" events
@@ -927,6 +950,9 @@ class World:
         if env is not None:
             os.environ.clear()
             os.environ.update(env)
+        if self.event_logging:
+            vt.proc.evlog = _evlog_get()
+            _evlog_set(child.evlog)  # a new process starts without event handlers
         vt.procs.append(child)
         bufs = {"out": [] if capture else None, "err": [] if capture else None}
         vt.stdout_stack.append(bufs)
@@ -949,6 +975,8 @@ class World:
             vt._closed_points = getattr(vt, "_closed_points", 0) + child.n_points
             vt.procs.pop()
             vt.stdout_stack.pop()
+            if self.event_logging and vt.procs:
+                _evlog_set(vt.proc.evlog)
             if not vt.dead:
                 os.environ.clear()
                 os.environ.update(saved_env)
@@ -981,6 +1009,8 @@ class World:
     def _step(self, vt):
         os.environ.clear()
         os.environ.update(vt.env)
+        if self.event_logging:
+            _evlog_set(vt.proc.evlog)  # logging configuration is per OS process: give this process its own
         self._main_wake.clear()
         if vt.state == "sleeping":
             if self.clock < vt.wake_time:
@@ -990,6 +1020,8 @@ class World:
         if not self._main_wake.wait(timeout=HANG_SECONDS):
             self._unhang(vt)
         vt.env = dict(os.environ)
+        if self.event_logging and vt.procs:
+            vt.proc.evlog = _evlog_get()
         if vt.state == "sleeping":
             # an *idle wake-up*: the process woke, changed nothing observable and went back to sleep (poll loop)
             if self.effects == getattr(vt, "wake_effects", -1):
@@ -1459,6 +1491,24 @@ def install():
 
     _time.sleep = v_sleep
     _time.time = v_time
+
+    # -- structured events: observe what reaches an *events.log file (stdlib logging.FileHandler, not JADE code)
+    import logging as _logging
+
+    real_emit = _logging.FileHandler.emit
+
+    def v_emit(self, record):
+        vt = cur()
+        if vt is not None and vt.world.event_logging and str(getattr(self, "baseFilename", "")).endswith("events.log"):
+            if vt.dead:
+                raise Killed()
+            try:
+                vt.world.events_written.append((self.baseFilename, self.format(record), vt.proc.name))
+            except Exception:  # noqa: BLE001
+                pass
+        return real_emit(self, record)
+
+    _logging.FileHandler.emit = v_emit
 
     # -- identity
     def v_hostname():
